@@ -893,8 +893,11 @@ func (o *oracle) result(r types.AsyncLoadResult, d *Drv) {
 	}
 	if cls != "" {
 		o.failed = true
-		if o.lacksPref {
+		if o.lacksPref { // known-finding input classes, decided from the case alone
 			cls = "skip-prefix-mismatch"
+			if len(o.lt) > 0 && !o.rem[o.lt[0].block] {
+				cls = "root-not-found-abort"
+			}
 		}
 		o.out.Fail(cls, "honest exchange: load of %d at %s answered %q; available=%v (local=%v)", cur, o.curPath, render(r, nil), avail, o.loc[o.lt[i].block])
 		return
